@@ -224,8 +224,14 @@ bool ossOperationsFacet::SaveOperationResult(
 ) {
   auto& opHandle = operations.at(pid);
   assert(opHandle != nullptr);
-  const auto guard = core.DndGuard();
-  if (!core.Src().InputData(pid, std::move(opResult.value))) {
+  const auto oldCoreHash = core.Src()(pid)->coreHash;
+  auto inputOK = false;
+  {
+    // Note: children are updated below, after their translations are adjusted
+    const auto guard = core.DndGuard();
+    inputOK = core.Src().InputData(pid, std::move(opResult.value));
+  }
+  if (!inputOK) {
     opHandle->broken = true;
     return false;
   } else {
@@ -235,6 +241,9 @@ bool ossOperationsFacet::SaveOperationResult(
     for (const auto& child : core.Graph().ChildrenOf(pid)) {
       const auto index = core.Graph().ParentIndex(pid, child).value(); // NOLINT(bugprone-unchecked-optional-access)
       UpdateChild(child, index, old2New);
+    }
+    if (oldCoreHash != core.Src()(pid)->coreHash) {
+      core.OnCoreChange(pid);
     }
     return true;
   }
